@@ -89,6 +89,23 @@ func loopHeads(fn *ssa.Function) ([]*ssa.BasicBlock, map[*ssa.BasicBlock]map[*ss
 	return heads, bodies
 }
 
+// returnsFromInside: the returning block is reached from inside the loop with head h without
+// going through the loop's normal exit (the successor of the head that lies outside the body).
+func returnsFromInside(h *ssa.BasicBlock, body map[*ssa.BasicBlock]bool, ret *ssa.BasicBlock) bool {
+	if !h.Dominates(ret) || h == ret {
+		return false
+	}
+	if body[ret] {
+		return true
+	}
+	for _, s := range h.Succs {
+		if !body[s] && s.Dominates(ret) {
+			return false
+		}
+	}
+	return true
+}
+
 // newFrame creates an activation.
 func (fr *FuncRun) newFrame(fn *ssa.Function, parent *Frame) *Frame {
 	fr.nframes++
@@ -265,6 +282,16 @@ func (fr *FuncRun) runRegion(f *Frame, order []*ssa.BasicBlock, within map[*ssa.
 				var res []Val
 				for _, r := range x.Results {
 					res = append(res, fr.val(f, cur, r))
+				}
+				if f.top {
+					heads, _ := loopHeads(f.fn)
+					for i, h := range heads {
+						v := "false"
+						if returnsFromInside(h, bodies[h], blk) {
+							v = "true"
+						}
+						cur.cells[cellKey{0, fmt.Sprintf("inloop:%d", i+1)}] = Val{T: v, S: sBool}
+					}
 				}
 				rets = append(rets, retRec{st: cur, results: res})
 				alive = false
